@@ -18,7 +18,7 @@ From Coq Require Import List Arith Bool ZArith.
 From LV Require Import Common.Cases Align.DP Msa.Profile Msa.Merge Msa.Refine Msa.MsaSpec Msa.MsaExec
   Msa.ProfileProofs Msa.MergeProofs Msa.UpdateProofs Msa.RefineProofs Msa.MsaExecProofs Msa.Examples
   Msa.Alignments Msa.AlignmentsProofs Msa.Totality Msa.CalignOracle Msa.TreeOracle
-  Msa.AlignHistory Msa.AlignHistoryProofs Msa.AlignFuzzy Msa.AlignFuzzyProofs.
+  Msa.AlignHistory Msa.AlignHistoryProofs Msa.AlignFuzzy Msa.AlignFuzzyProofs Msa.RefineTotality.
 Import ListNotations.
 Local Open Scope nat_scope.
 
@@ -89,6 +89,30 @@ Theorem C04_align_total :
     exists st, align PA cf tree = Some st /\ state_ok cf st.
 Proof. exact align_total. Qed.
 Print Assumptions C04_align_total.
+
+(* ... and so do the refinement calls (sound-class mode) and swap_check: with aligners that always
+   answer validly, non-empty inputs and - for iterate_clusters / iterate_orphans, whose index sets
+   are inputs of the model - index sets that are one set or non-empty proper subsets (checked at run
+   time by idxs_okb), every call returns and keeps the invariant; the index sets of
+   iterate_all_sequences and iterate_similar_gap_sites are PROVED to be such subsets.  No exception
+   of the model is reachable along such a history *)
+Theorem C04_refinement_total :
+  forall (T : Type) (ltb : T -> T -> bool) (cf : config),
+    config_ok cf -> Forall (fun t => t <> []) (cf_tokens cf) ->
+  forall (c : call T) (st : state),
+    call_env_ok c -> call_idx_ok cf c st -> state_ok cf st ->
+    exists st', run_call T ltb cf true c st = Some st' /\ state_ok cf st'.
+Proof. exact call_total. Qed.
+Print Assumptions C04_refinement_total.
+
+Theorem C04_history_total :
+  forall (T : Type) (ltb : T -> T -> bool) (cf : config),
+    config_ok cf -> Forall (fun t => t <> []) (cf_tokens cf) ->
+  forall (cs : list (call T)) (st : state),
+    Forall (fun c => call_env_ok c /\ forall s, call_idx_ok cf c s) cs -> state_ok cf st ->
+    exists st', run_history T ltb cf true cs st = Some st' /\ state_ok cf st'.
+Proof. exact history_total. Qed.
+Print Assumptions C04_history_total.
 
 (* iter_inv: _split / _reduce_gap_sites / re-align / _join, for ANY index list, any check
    mode and any score function *)
@@ -281,6 +305,24 @@ Example ex_fuzzy :
                (2%nat, [Some 1; Some 2; None; None; Some 0; Some 4; Some 5]);
                (8%nat, [Some 6; Some 9; Some 7; Some 9]) ]%Z.
 Proof. eexists. vm_compute. split; reflexivity. Qed.
+
+Example ex_history_total_hyps :
+  Forall (fun t => t <> []) (cf_tokens ex_cf) /\
+  Forall (fun c => call_env_ok c /\ forall s, call_idx_ok ex_cf c s)
+         [AllSequences nat (ex_env CheckFinal ex_score); SimilarGapSites nat (ex_env CheckImmediate ex_score_up);
+          Clusters nat [[0; 1]; [2]] (ex_env CheckNone ex_score); Orphans nat [[1]] (ex_env CheckFinal ex_score);
+          SwapCheck nat].
+Proof.
+  split; [repeat (constructor; [discriminate|]); constructor|].
+  assert (E : forall chk sc, env_ok nat (ex_env chk sc) /\ env_total (ex_env chk sc)).
+  { intros chk sc. split; [exact block_pa_valid|exact ex_oracle_total]. }
+  constructor; [split; [apply E|intros s; exact I]|].
+  constructor; [split; [apply E|intros s; exact I]|].
+  constructor; [split; [apply E|intros s; right; apply Forall_forall; intros idx Hi; apply idx_okb_spec;
+                                 destruct Hi as [<-|[<-|[]]]; reflexivity]|].
+  constructor; [split; [apply E|intros s; left; reflexivity]|].
+  constructor; [split; [exact I|intros s; exact I]|constructor].
+Qed.
 
 (* the guards are real: plain-token mode + a refinement call that reaches the loop raises *)
 Example ex_plain_mode_raises :
